@@ -493,3 +493,17 @@ pub fn replay_property<P: Prop>(prop: &P, path: &Path) -> i32 {
         0
     }
 }
+
+/// Intern a dynamically built label (the set of labels is small and finite).
+pub fn intern(s: String) -> &'static str {
+    use std::sync::Mutex;
+    static TABLE: Mutex<Option<std::collections::HashSet<&'static str>>> = Mutex::new(None);
+    let mut g = TABLE.lock().unwrap();
+    let t = g.get_or_insert_with(Default::default);
+    if let Some(x) = t.get(s.as_str()) {
+        return x;
+    }
+    let leaked: &'static str = Box::leak(s.into_boxed_str());
+    t.insert(leaked);
+    leaked
+}
